@@ -46,11 +46,18 @@ namespace hist
         }
         void use_a_little(T& t)
         {
+            // leave the target with a used block, a *cached* block and a live allocation:
+            // grow into a second block, unwind below the boundary, allocate again
+            auto m = t.top();
+            (void)t.allocate(block_size_ / 2, 1);
+            (void)t.allocate(block_size_ / 2, 1);
+            t.unwind(m);
             (void)t.allocate(24, 8);
         }
         void after_move()
         {
             markers_.clear();
+            stale_.clear();
         }
 
         void* alloc(const Req& r) override
@@ -109,8 +116,22 @@ namespace hist
         bool unwind(int i) override
         {
             this->cur().unwind(markers_[size_t(i)]);
+            for (size_t k = size_t(i) + 1; k < markers_.size() && stale_.size() < 8; ++k)
+                stale_.push_back(markers_[k]); // invalid from now on (used by C16 only)
             markers_.erase(markers_.begin() + i + 1, markers_.end());
             return true;
+        }
+        size_t stale_markers() override
+        {
+            return stale_.size();
+        }
+        bool stale_above_top(size_t i) override
+        {
+            return stale_[i] > this->cur().top();
+        }
+        void unwind_stale(size_t i) override
+        {
+            this->cur().unwind(stale_[i]);
         }
         int marker_cmp(int i, int j) override
         {
@@ -126,7 +147,7 @@ namespace hist
 
     private:
         size_t              block_size_;
-        std::vector<marker> markers_;
+        std::vector<marker> markers_, stale_;
     };
 
     template <std::size_t N, class Up>
